@@ -1480,7 +1480,7 @@ class Ev:
             # module-level constant: `NAME = <expression>` assigned exactly once at module level
             return Ev(self.w, Scope(), self.modrel, f"<module>.{e.id}", self.depth + 1).ev(const)
         if e.id in ("range", "len", "int", "float", "bool", "abs", "sum", "max", "min", "enumerate", "zip", "hasattr", "isinstance",
-                    "tuple", "list", "round", "print", "any", "all", "reversed", "sorted", "str"):
+                    "tuple", "list", "round", "print", "any", "all", "reversed", "sorted", "str", "super", "dict"):
             return ModRef("builtins." + e.id)
         if e.id in ("ValueError", "RuntimeError", "AssertionError", "NotImplementedError", "TypeError", "IndexError"):
             return Opaque(e.id)
@@ -1542,7 +1542,7 @@ class Ev:
             if a == "A":
                 return np.asarray(base)
             return _Bound(base, a)
-        if isinstance(base, (list, tuple, dict, sp.Basic, int, T)):
+        if isinstance(base, (list, tuple, dict, sp.Basic, int, T, SuperProxy)):
             return _Bound(base, a)
         raise self.und(f"attribute `{u(e)[:50]}`", e)
 
@@ -1837,6 +1837,8 @@ class Ev:
         return None
 
     def method(self, base, name, args, kw, node):
+        if isinstance(base, SuperProxy):
+            raise SuperCall(name, args, kw)
         if isinstance(base, SpM):
             return self.sp_method(base, name, args, kw, node)
         if isinstance(base, list):
@@ -1997,6 +1999,27 @@ class Ev:
             return any(vals) if name == "any" else all(vals)
         if name in ("print", "str"):
             return "<str>" if name == "str" else None
+        if name == "super" and not args:
+            return SuperProxy()
+        if name == "isinstance" and len(args) == 2:
+            kinds = args[1] if isinstance(args[1], tuple) else (args[1],)
+            res = False
+            for k_ in kinds:
+                path = k_.path if isinstance(k_, ModRef) else None
+                py = {"builtins.dict": dict, "builtins.list": list, "builtins.tuple": tuple, "builtins.str": str, "numpy.ndarray": np.ndarray}.get(path)
+                if py is not None:
+                    res = res or (isinstance(args[0], py) and not isinstance(args[0], Mat))
+                elif path in ("builtins.int", "builtins.float"):
+                    v = args[0]
+                    if isinstance(v, (bool, np.ndarray, dict, list, tuple, str)) or v is None:
+                        continue
+                    if isinstance(v, int):
+                        res = res or path == "builtins.int"
+                    else:
+                        raise self.und("isinstance of a symbolic number", node)
+                else:
+                    raise self.und(f"isinstance against `{path}`", node)
+            return res
         raise self.und(f"builtin `{name}` in `{u(node)[:50]}`", node)
 
     def sps(self, name, args, kw, node):
@@ -2166,6 +2189,26 @@ class Ev:
         if not all(isinstance(x, (int, np.integer)) for x in v):
             raise self.und("np.arange with non-integer arguments", node)
         return np.arange(*[int(x) for x in v])
+
+    def np_linspace(self, start, stop, num=50, node=None, **kw):
+        if kw:
+            raise self.und("np.linspace with options", node)
+        n = conc(num)
+        if not isinstance(n, (int, np.integer)) or n < 2:
+            raise self.und("np.linspace with a symbolic / degenerate number of points", node)
+        a, b = obj(start), obj(stop)
+        if isinstance(a, np.ndarray) and a.ndim == 0:
+            a = a[()]
+        if isinstance(b, np.ndarray) and b.ndim == 0:
+            b = b[()]
+        step = self.binop(ast.Div(), self.binop(ast.Sub(), b, a, node), int(n) - 1, node)
+        rows = [self.binop(ast.Add(), a, self.binop(ast.Mult(), i, step, node), node) for i in range(int(n))]
+        if isinstance(rows[0], np.ndarray):
+            return np.stack([obj(r) for r in rows], axis=0)
+        out = np.empty(int(n), dtype=object)
+        for i, r in enumerate(rows):
+            out[i] = r
+        return out
 
     def np_eye(self, n, node=None, **kw):
         return obj(np.eye(int(conc(n)), dtype=np.int64))
@@ -2639,6 +2682,16 @@ class Ev:
             ix = tuple(env[c] for c in out)
             res[ix] = res[ix] + t
         return res if out else res[()]
+
+
+class SuperProxy:
+    """value of `super()`: a call of one of its methods ends the interpretation and hands the arguments to the rule"""
+
+
+class SuperCall(Exception):
+    def __init__(self, name, args, kw):
+        super().__init__(name)
+        self.name, self.args_, self.kw = name, args, kw
 
 
 class _Bound:
@@ -3237,6 +3290,90 @@ def scale_clause(ctx: Ctx, inst: Instance, log_base: list, fn) -> None:
                   construct=cons, facts={"scale": str(key), "decision": what, "failed": [f"{f.rule} {f.construct}" for f in fnds[:6]]})
 
 
+# ======================================================================================================
+#  R8: the Cartesian constructor spans the requested box
+# ======================================================================================================
+
+STRUCT = "src/porepy/grids/structured.py"
+
+
+def cart_clause(ctx: Ctx) -> None:
+    """CartGrid.__init__ is interpreted up to its call of the TensorGrid constructor for every documented form of (nx, physdims); the k-th
+    coordinate array handed over must have nx[k] + 1 equidistant entries from the requested minimum to the requested maximum."""
+    mod = ctx.repo.module(STRUCT)
+    init = methods(mod.cls("CartGrid")).get("__init__")
+    if init is None:
+        raise AnchorError(f"{STRUCT}:CartGrid.__init__ not found")
+    q = "CartGrid.__init__"
+    lo = sp.symbols("xmin ymin zmin", real=True)
+    hi = sp.symbols("xmax ymax zmax", real=True)
+    ext = sp.symbols("ex ey ez", real=True)
+    syms = list(lo) + list(hi) + list(ext)
+    base = ["1/3", "-2/5", "1/2", "7/3", "11/5", "5/2", "3", "5/2", "7/4"]
+    deltas = [["1/7", "1/9", "-1/8", "1/5", "1/6", "1/4", "1/3", "-1/4", "1/5"], ["-1/9", "1/5", "1/6", "1/7", "-1/10", "1/9", "-1/3", "1/11", "1/7"]]
+    axes = "xyz"
+    counts = {0: [3], 1: [3], 2: [3, 2], 3: [4, 3, 2]}
+    for d in (0, 1, 2, 3):
+        n = counts[d]
+        nd = max(d, 1)
+        for kind in ("none", "array", "dict"):
+            fam = Fam(f"cart{d}{kind}", syms, _placements(syms, base, deltas))
+            tl, th, te = [fam.from_expr(x) for x in lo], [fam.from_expr(x) for x in hi], [fam.from_expr(x) for x in ext]
+            nx = n[0] if d == 0 else np.array(n, dtype=np.int64)
+            if kind == "none":
+                phys, want = None, [(0, n[k]) for k in range(nd)]
+            elif kind == "array":
+                if d == 0:
+                    phys = te[0]
+                else:
+                    phys = np.empty(nd, dtype=object)
+                    for k in range(nd):
+                        phys[k] = te[k]
+                want = [(0, te[k]) for k in range(nd)]
+            else:
+                phys = {}
+                for k in range(nd):
+                    phys[axes[k] + "min"], phys[axes[k] + "max"] = tl[k], th[k]
+                want = [(tl[k], th[k]) for k in range(nd)]
+            form = f"nx = {n[0] if d == 0 else n}, physdims = " + {"none": "None", "array": "extents " + str([str(e) for e in ext[:nd]]) if d else "extent ex",
+                                                                      "dict": "{" + ", ".join(f"{axes[k]}min, {axes[k]}max" for k in range(nd)) + "}"}[kind]
+            tag = f"[{'scalar' if d == 0 else str(d) + '-d'} nx, physdims {kind}]"
+            fam.restart_budget()
+            ev = Ev(World(ctx.repo, fam), Scope(), STRUCT, q)
+            got = None
+            try:
+                ev.apply(Closure(init, None, STRUCT, q, selfval=GridObj({})), [nx, phys], {}, init)
+            except SuperCall as sc:
+                got = sc
+            except (KernelRaises, ShapeFault) as f:
+                ctx.check("R8", False, STRUCT, q, f.node or init, f"CartGrid({form}): the constructor fails before the grid is built: {f.what}",
+                          construct=f"{tag} reaches the TensorGrid constructor")
+                continue
+            except (TypeError, ValueError, IndexError, KeyError, AttributeError) as err:
+                raise Undecided(f"{STRUCT}:{q}: evaluator could not interpret the constructor for {form} ({type(err).__name__}: {str(err)[:100]})")
+            if got is None or got.name != "__init__":
+                raise Undecided(f"{STRUCT}:{q}: no call of super().__init__ reached for {form}")
+            coords = list(got.args_) + [got.kw[k] for k in ("x", "y", "z") if k in got.kw][len(got.args_):]
+            for k in range(nd):
+                c = coords[k] if k < len(coords) else None
+                what = f"CartGrid({form}): coordinate array of axis {axes[k]} handed to the TensorGrid constructor"
+                cons = f"{tag} axis {axes[k]} spans the requested interval"
+                if not isinstance(c, np.ndarray) or isinstance(c, Mat) or c.ndim != 1 or c.shape[0] != n[k] + 1:
+                    ctx.check("R8", False, STRUCT, q, init, f"{what} has shape {getattr(c, 'shape', type(c).__name__)}, expected ({n[k] + 1},) "
+                              f"(one entry per node layer)", construct=cons)
+                    continue
+                c = obj(c)
+                a, b = want[k]
+                resid = [c[0] - a, c[-1] - b] + [(c[i + 1] - c[i]) - (c[1] - c[0]) for i in range(1, n[k])]
+                bad = next((r for r in resid if not fam.iszero(r)), None)
+                wit = None if bad is None else fam.witness(bad)
+                ctx.check("R8", bad is None, STRUCT, q, init, f"{what} must run from the requested minimum to the requested maximum in equal steps"
+                          + ("" if bad is None else f"; first = {fam.nums(c[0])[0]:.4g}, last = {fam.nums(c[-1])[0]:.4g} for {wit['placement']}"),
+                          construct=cons, facts=wit)
+            if len(coords) > nd and any(isinstance(c, np.ndarray) for c in coords[nd:]):
+                ctx.check("R8", False, STRUCT, q, init, f"CartGrid({form}): {len(coords)} coordinate arrays handed over for a {nd}-d grid", construct=f"{tag} number of axes")
+
+
 def run(ctx: Ctx) -> None:
     mod = ctx.repo.module(GRID)
     cls = mod.cls("Grid")
@@ -3281,6 +3418,10 @@ def run(ctx: Ctx) -> None:
             continue
         ctx.sample({"instance": inst.name, "note": inst.note, "symbols": [str(s) for s in inst.fam.symbols],
                     "square_roots": len(inst.fam.rad), "placements": len(inst.fam.place)})
+    try:
+        cart_clause(ctx)
+    except Undecided as e:
+        undecided.append(str(e))
     if undecided and not ctx.findings:
         raise Undecided("; ".join(undecided))
     for msg in undecided:
